@@ -262,7 +262,7 @@ theorem state_consistent_after_failure_allocIsland (c : Cfg) (d : D) (reqs : Lis
       rw [lookup_nullify, lookup_cons_ne _ _ hne, other d1 hg v hv]
       cases lookup d.env v <;> simp [hv]
 
-/-- **The contact buffers** (mj_narrowphase, mj_collidePlaneFlex, mj_collideElems, mj_collideElemVert):
+/-- **The contact buffers** (mj_narrowphase, mj_collideGeomElem, mj_collideElems, mj_collideElemVert):
     a refused buffer leaves `ncon`, `parena`, the stack pointer and every pointer as they were, raises
     mjWARN_CONTACTFULL once and releases the stack mark; a granted one adds `n` contacts. -/
 theorem state_consistent_after_failure_contactBuffer (c : Cfg) (d : D) (n : Nat)
